@@ -12,7 +12,7 @@ From PV Require Import lib.Sx lib.Str lib.Result model.GenScc model.SccLen model
 From PV Require Import model.GenSccw model.SccWrap model.SccWrite spec.SpecSccw model.SccRoundTrip.
 From PV Require Import proofs.SccwStr proofs.SccWriteFacts proofs.SccTimingFacts proofs.SccWordsFacts proofs.SccDecodeFacts
      proofs.SccLayoutFacts proofs.SccDocFacts proofs.SccComposeFacts proofs.SccwBridgeFacts.
-From PV Require Import proofs.SccRereadNodes proofs.SccRereadLoad proofs.SccRereadTime.
+From PV Require Import proofs.SccRereadNodes proofs.SccRereadLines proofs.SccRereadLoad proofs.SccRereadTime.
 From PV Require proofs.SccPoponStage2c proofs.SccRoundTripFacts.
 Import ListNotations.
 Open Scope Z_scope.
@@ -180,6 +180,100 @@ Proof.
   split; [rewrite Wd; exact Rf|rewrite S; exact Qw].
 Qed.
 
+(* ---- round 4: line lengths and display durations of the stored captions ------------------------------------------- *)
+Lemma all32_no_nl : forall sp, forallb (fun c => c =? 32) sp = true -> no_nl sp = true.
+Proof.
+  intros sp H. unfold no_nl. apply forallb_forall. intros c Hc. rewrite forallb_forall in H. specialize (H c Hc).
+  assert (c = 32) by lia. subst. reflexivity.
+Qed.
+
+Lemma sle_runs : forall l, plain l = true -> forallb tame_node l = true ->
+  forall k, runs_ok (ntext l) k = true -> runs_ok (ntext (strip_line_ends l)) k = true.
+Proof.
+  induction l as [|n t IH]; intros P T k H; [exact H|]. apply plain_cons in P. destruct P as [Pn Pt].
+  cbn [forallb] in T. apply andb_prop in T. destruct T as [Tn Tt]. cbn [strip_line_ends].
+  change (ntext (n :: t)) with (node_str n ++ ntext t) in H.
+  match goal with |- context [ntext (?x :: strip_line_ends t)] =>
+    change (ntext (x :: strip_line_ends t)) with (node_str x ++ ntext (strip_line_ends t)) end.
+  destruct n as [k0 tx p]. unfold plain_node, is_text, is_break in Pn. cbn [i_kind] in Pn.
+  destruct k0; try discriminate.
+  - unfold is_text at 1. cbn [i_kind andb]. destruct (next_plain_is_sep t).
+    + unfold rstrip_node, node_str in *. cbn [i_kind i_text i_pos] in *. destruct (tame_split tx Tn) as (sp & E & Sp).
+      set (y := rstrip tx) in *. clearbody y. subst tx. rewrite <- app_assoc in H.
+      apply (runs_ok_congr y (sp ++ ntext t)); [|exact H]. intros k1 X. apply (IH Pt Tt).
+      apply (runs_ok_skip sp); [apply all32_no_nl; exact Sp|exact X].
+    + unfold node_str in *. cbn [i_kind i_text] in *. apply (runs_ok_congr tx (ntext t)); [exact (IH Pt Tt)|exact H].
+  - unfold is_text at 1. cbn [i_kind andb]. unfold node_str in *. cbn [i_kind] in *.
+    apply (runs_ok_congr [10] (ntext t)); [exact (IH Pt Tt)|exact H].
+Qed.
+
+Lemma caption_strip_short : forall nodes s e, plain nodes = true -> forallb tame_node nodes = true ->
+  exists cn lay, build_captions (format_italics nodes) s e [] (mkPre s e [] None) = [mkPre s e cn lay]
+                 /\ words (strip (concat (map node_text cn))) = words (ntext nodes)
+                 /\ (short (ntext nodes) = true -> short (concat (map node_text cn)) = true).
+Proof.
+  intros nodes s e P T. destruct (caption_strip nodes s e P T) as (cn & lay & B & W). exists cn, lay. split; [exact B|]. split; [exact W|].
+  intros Sh. rewrite (format_plain nodes P) in B.
+  destruct (skip_empty_plain nodes P) as [P2 N2]. pose proof (sle_plain _ P2) as P3.
+  destruct (build_plain (strip_line_ends (skip_empty_text nodes)) s e [] (mkPre s e [] None) P3) as (lay' & E).
+  cbn [pc_start pc_end pc_nodes app] in E. rewrite E in B. inversion B; subst cn. rewrite (cnode_text _ P3).
+  unfold short. apply sle_runs; [exact P2|apply skip_empty_tame; exact T|]. rewrite N2. exact Sh.
+Qed.
+
+Definition fr (k : Z) : Q := inject_Z k * mpc.
+(* a stored caption: short lines; displayed from frame ks to frame ke, at least two frames, its start at least two frames
+   before frame B *)
+Definition capG (B : Z) (pc : precap) : Prop :=
+  short (cap_text pc) = true /\
+  exists ks ke, 0 <= ks /\ pc_start pc == fr ks /\ pc_end pc == fr ke /\ ks + 2 <= ke /\ ks + 2 <= B.
+
+Lemma capG_weaken : forall B B' pc, B <= B' -> capG B pc -> capG B' pc.
+Proof. intros B B' pc H (S & ks & ke & A1 & A2 & A3 & A4 & A5). split; [exact S|]. exists ks, ke. repeat split; try assumption; lia. Qed.
+
+Lemma capG_set_end : forall B pc a ka, capG B pc -> a == fr ka -> B <= ka -> capG B (set_end a pc).
+Proof.
+  intros B [s e n l] a ka (S & ks & ke & A1 & A2 & A3 & A4 & A5) Ea Hk. split; [exact S|]. exists ks, ka.
+  cbn [set_end pc_start pc_end] in *. repeat split; try assumption; lia.
+Qed.
+
+Lemma Forall_map_tail : forall B l n a ka, Forall (capG B) l -> a == fr ka -> B <= ka ->
+  Forall (capG B) (map_tail n (set_end a) l).
+Proof.
+  intros B l n a ka H Ea Hk. unfold map_tail. set (k := (length l - n)%nat). rewrite <- (firstn_skipn k l) in H.
+  apply Forall_app in H. destruct H as [H1 H2]. apply Forall_app. split; [exact H1|].
+  apply Forall_forall. intros x Hx. apply in_map_iff in Hx. destruct Hx as (y & <- & Hy). rewrite Forall_forall in H2.
+  exact (capG_set_end B y a ka (H2 y Hy) Ea Hk).
+Qed.
+
+Lemma ulb_G : forall B st P rest ka, Forall (capG B) (st_caps st) -> pc_start P == fr ka -> B <= ka ->
+  Forall (capG B) (update_last_batch st (P :: rest)).
+Proof.
+  intros B st P rest ka H Ea Hk. unfold update_last_batch.
+  destruct (last (map Some (skipn (length (st_caps st) - st_batch st) (st_caps st))) None) as [b|]; [|exact H].
+  destruct (Qeq_bool (pc_end b) 0 || negb (Qle_bool join_threshold (pc_start P - pc_end b))); [|exact H].
+  exact (Forall_map_tail B _ _ _ ka H Ea Hk).
+Qed.
+
+Lemma frames_le : forall k t, (fr k <= t)%Q -> k <= tc_frames t.
+Proof.
+  intros k t H. unfold tc_frames. rewrite <- (Qfloor_Z k). apply Qfloor_resp_le. unfold fr, mpc in H.
+  change (inject_Z k * (1001000 # 30) <= t)%Q in H. nra.
+Qed.
+
+Lemma fr_mono : forall a b, a <= b -> (fr a <= fr b)%Q.
+Proof. intros a b H. unfold fr. apply Qmult_le_compat_r; [rewrite <- Zle_Qle; exact H|discriminate]. Qed.
+
+Lemma capG_not_flash : forall B pc, capG B pc -> is_flash pc = false.
+Proof.
+  intros B pc (_ & ks & ke & _ & A2 & A3 & A4 & _). unfold is_flash.
+  assert (X : (inject_Z 50000 <= pc_end pc - pc_start pc)%Q).
+  { rewrite A2, A3. pose proof (fr_mono (ks + 2) ke A4) as M. unfold fr in *. rewrite inject_Z_plus in M.
+    unfold mpc in *. change (inject_Z 2) with (2 # 1)%Q in M. change (inject_Z 50000) with (50000 # 1)%Q.
+    assert (Y : ((inject_Z ks + (2 # 1)) * (1001000 # 30) == inject_Z ks * (1001000 # 30) + (2002000 # 30))%Q) by ring.
+    rewrite Y in M. assert (Z0 : ((50000 # 1) <= (2002000 # 30))%Q) by (unfold Qle; cbn; lia). lra. }
+  apply Qle_bool_iff in X. rewrite X. apply andb_false_r.
+Qed.
+
 (* ---- one cue: its load line and, if kept, its clear line ----------------------------------------------------------------- *)
 Definition has_word (c : wcap) : Prop := words (w_text c) <> [].
 Definition below_100h (c : wcap) : Prop := (w_end c < 360000000000)%Q.
@@ -195,14 +289,48 @@ Qed.
 Lemma refines_nonnil : forall w ws, refines w ws [] = true -> ws = [].
 Proof. intros w [|x t] H; [reflexivity|discriminate]. Qed.
 
-Lemma item_run : forall cap y, good cap y -> cap_dom cap -> has_word cap -> below_100h cap ->
-  (0 <= w_start cap - cap_words cap * mpc)%Q -> (0 <= w_start cap)%Q -> (w_start cap <= w_end cap)%Q ->
-  forall done st tk ds nodes q tm tc fr, qinv done st q ->
-  exists st' tk' ds' nodes' q' tm' tc' fr',
-    fold_left translate_line (map to_sline (map pline (item_ls y))) (ST0 st tk LNone ds nodes q tm tc fr)
-    = ST0 st' tk' LNone ds' nodes' q' tm' tc' fr' /\ qinv (done ++ [cap]) st' q'.
+(* the store after closing the caption on display at frame kp (kp not before the frame of the last cue's start) *)
+Inductive ginv (p : Q) (st : stash) : option (creator * Q) -> Prop :=
+| GNone : Forall (capG (tc_frames p)) (st_caps st) -> ginv p st None
+| GSome : forall nodes a ka, a == fr ka -> 0 <= ka -> ka + 2 <= tc_frames p -> Forall (capG ka) (st_caps st) ->
+    short (ntext nodes) = true -> plain nodes = true -> forallb tame_node nodes = true -> words (ntext nodes) <> [] ->
+    ginv p st (Some (mkCr nodes SNone, a)).
+
+Lemma closed_parts : forall st nodes a t, plain nodes = true -> forallb tame_node nodes = true -> words (ntext nodes) <> [] ->
+  short (ntext nodes) = true ->
+  exists cn lay, closed st (Some (mkCr nodes SNone, a)) t
+                 = mkStash (update_last_batch st [mkPre a t cn lay] ++ [mkPre a t cn lay]) 1
+                 /\ short (concat (map node_text cn)) = true.
 Proof.
-  intros cap [[ws s] eo] (G1 & G2 & G3 & G4) [B L] HW H100 S0 S1 S2 done st tk ds nodes q tm tc fr I. cbn [fst snd] in *.
+  intros st nodes a t P T W Sh. unfold closed, create_and_store.
+  destruct (cr_is_empty (mkCr nodes SNone)) eqn:E.
+  - exfalso. apply W. apply words_blanks_nil. apply blank_ntext; assumption.
+  - cbn [cr_nodes]. destruct (caption_strip_short nodes a t P T) as (cn & lay & B & Wd & S). rewrite B.
+    exists cn, lay. split; [|exact (S Sh)]. unfold stash_extend. cbn [filter].
+    assert (N : has_nodes (mkPre a t cn lay) = true).
+    { unfold has_nodes. cbn [pc_nodes]. destruct cn; [|reflexivity]. exfalso. apply W. rewrite <- Wd. reflexivity. }
+    rewrite N. reflexivity.
+Qed.
+
+Lemma closed_G : forall p st q t kp, ginv p st q -> t == fr kp -> tc_frames p <= kp ->
+  Forall (capG (tc_frames p)) (st_caps (closed st q t)).
+Proof.
+  intros p st q t kp H Et Hk. destruct H as [H|nodes a ka Ea K0 K2 H Sh P T W]; [exact H|].
+  destruct (closed_parts st nodes a t P T W Sh) as (cn & lay & -> & S). cbn [st_caps]. apply Forall_app. split.
+  - pose proof (ulb_G ka st (mkPre a t cn lay) [] ka H Ea (Z.le_refl ka)) as U.
+    eapply Forall_impl; [|exact U]. intros x X. apply (capG_weaken ka); [lia|exact X].
+  - constructor; [|constructor]. split; [exact S|]. exists ka, kp. cbn [pc_start pc_end]. repeat split; try assumption; lia.
+Qed.
+
+Lemma item_run : forall cap y p, good cap y -> cap_dom cap -> has_word cap -> below_100h cap ->
+  (0 <= p)%Q -> (p <= w_start cap - cap_words cap * mpc)%Q -> (0 <= w_start cap)%Q -> (w_start cap <= w_end cap)%Q ->
+  forall done st tk ds nodes q tm tc frm, qinv done st q -> ginv p st q ->
+  exists st' tk' ds' nodes' q' tm' tc' fr',
+    fold_left translate_line (map to_sline (map pline (item_ls y))) (ST0 st tk LNone ds nodes q tm tc frm)
+    = ST0 st' tk' LNone ds' nodes' q' tm' tc' fr' /\ qinv (done ++ [cap]) st' q' /\ ginv (w_start cap) st' q'.
+Proof.
+  intros cap [[ws s] eo] p (G1 & G2 & G3 & G4) [B L] HW H100 P0p Sp S1 S2 done st tk ds nodes q tm tc frm I GI. cbn [fst snd] in *.
+  assert (S0 : (0 <= w_start cap - cap_words cap * mpc)%Q) by lra.
   pose proof (text_words_explicit (w_text cap) ws L B G1) as Ews. subst ws.
   set (ws := flat_map roww (layout_rows (w_text cap))) in *.
   set (lines := split_ch 10 (layout_line (w_text cap))) in *.
@@ -213,24 +341,30 @@ Proof.
   assert (Bl : Forall (fun line => forallb is_basic line = true) lines).
   { apply Forall_forall. intros line Hl. pose proof (layout_rows_basic (w_text cap) B) as RB. rewrite Er in RB.
     rewrite <- (number_rows_snd lines first) in Hl. apply in_map_iff in Hl. destruct Hl as (r & <- & Hr). exact (RB r Hr). }
+  assert (Rs : rows_short lines).
+  { apply Forall_forall. intros line Hl. apply (rows_le_32 (w_text cap)). rewrite Er, number_rows_snd. exact Hl. }
   assert (Rf : refines 32 (words (w_text cap)) (flat_map words lines) = true).
   { pose proof (layout_refines_words_basic (w_text cap) B) as X. rewrite Er, number_rows_snd in X. exact X. }
   assert (Wn : flat_map words lines <> []).
   { intros E. rewrite E in Rf. apply refines_nonnil in Rf. exact (HW Rf). }
   (* the clock *)
   assert (CW : cap_words cap = code_words (render_words ws)) by (unfold cap_words; rewrite G1, code_words_render; reflexivity).
-  rewrite CW in S0. destruct (pre_roll_le (render_words ws) (w_start cap) S1) as [Pl P0]. rewrite <- G3 in Pl, P0.
+  rewrite CW in S0, Sp. destruct (pre_roll_le (render_words ws) (w_start cap) S1) as [Pl P0]. rewrite <- G3 in Pl, P0.
   assert (Fr : 0 <= tc_frames s < 10800000) by (apply frames_range; [exact P0|unfold below_100h in H100; lra]).
+  assert (Fp : tc_frames p <= tc_frames s).
+  { apply tc_frames_mono. rewrite G3, (pre_roll_exact _ _ S0). exact Sp. }
   set (n := Z.of_nat (length ws)).
-  destruct (get_time_frames (tc_frames s) (n + 4) Fr ltac:(lia)) as (t1 & Gt1 & _).
+  destruct (get_time_frames (tc_frames s) (n + 4) Fr ltac:(lia)) as (t1 & Gt1 & Et1).
   destruct (get_time_frames (tc_frames s) (n + 6) Fr ltac:(lia)) as (t2 & Gt2 & Et2).
+  pose proof (visible_within_3_frames (render_words ws) (w_start cap) S0) as Vis. cbv zeta in Vis.
+  rewrite render_words_length in Vis.
+  replace (Z.of_nat (5 * length ws) / 5) with n in Vis
+    by (unfold n; rewrite Nat2Z.inj_mul; change (Z.of_nat 5) with 5; rewrite Z.mul_comm, Z.div_mul; lia).
+  rewrite <- G3 in Vis. destruct Vis as [V1 V2]. pose proof mpc_pos as M.
   assert (Qw : q_within t2 (w_start cap) tol = true).
-  { pose proof (visible_within_3_frames (render_words ws) (w_start cap) S0) as Vis. cbv zeta in Vis.
-    rewrite render_words_length in Vis.
-    replace (Z.of_nat (5 * length ws) / 5) with n in Vis
-      by (unfold n; rewrite Nat2Z.inj_mul; change (Z.of_nat 5) with 5; rewrite Z.mul_comm, Z.div_mul; lia).
-    rewrite <- G3 in Vis. unfold q_within, tol. apply Qle_bool_iff. apply Qabs_Qle_condition. change frame_us with mpc.
-    destruct Vis as [V1 V2]. pose proof mpc_pos as M. split; lra. }
+  { unfold q_within, tol. apply Qle_bool_iff. apply Qabs_Qle_condition. change frame_us with mpc. split; lra. }
+  assert (Ka : tc_frames s + (n + 6) + 2 <= tc_frames (w_start cap)).
+  { apply frames_le. unfold fr. rewrite inject_Z_plus. change (inject_Z 2) with (2 # 1)%Q. lra. }
   (* the load line *)
   unfold item_ls, cap_lines, unw. cbn [fst snd map].
   change (to_sline (pline (s, pre4 ++ ws ++ post3, EOC)))
@@ -238,49 +372,97 @@ Proof.
   change (map word_z ((pre4 ++ ws ++ post3) ++ [EOC])) with (load_words first lines). cbn [fold_left].
   assert (H1f : 1 <= first) by (unfold first; lia).
   assert (H2f : first + Z.of_nat (length lines) <= 16) by (unfold first; lia).
-  destruct (load_line_run creator0 creator0 0 lines first st tk ds nodes q tm tc fr (format_frames (tc_frames s)) t1 t2
-              H1f H2f Bl Gt1 Gt2) as (tk1 & ds1 & nodes1 & E1 & P1 & T1 & W1).
-  rewrite E1. fold n.
+  destruct (load_line_run creator0 creator0 0 lines first st tk ds nodes q tm tc frm (format_frames (tc_frames s)) t1 t2
+              H1f H2f Bl Gt1 Gt2) as (tk1 & ds1 & nodes1 & E1 & P1 & T1 & W1 & Sh1).
+  rewrite E1.
   assert (Wne : words (ntext nodes1) <> []) by (rewrite W1; exact Wn).
   assert (Ce : cr_is_empty (mkCr nodes1 SNone) = false).
   { destruct (cr_is_empty (mkCr nodes1 SNone)) eqn:E; [|reflexivity]. exfalso. apply Wne. apply words_blanks_nil. apply blank_ntext; assumption. }
   unfold after_eoc, queued. rewrite Ce.
   assert (I1 : qinv (done ++ [cap]) (closed st q t1) (Some (mkCr nodes1 SNone, t2))).
   { eapply QSome; [reflexivity|apply closed_inv; exact I|exact P1|exact T1|rewrite W1; exact Rf|exact Wne|exact Qw]. }
+  assert (N0 : 0 <= n) by (unfold n; lia).
+  assert (GI1 : ginv (w_start cap) (closed st q t1) (Some (mkCr nodes1 SNone, t2))).
+  { apply (GSome _ _ nodes1 t2 (tc_frames s + (n + 6))); [exact Et2|lia|lia| |exact (Sh1 Rs)|exact P1|exact T1|exact Wne].
+    eapply Forall_impl; [|exact (closed_G p st q t1 (tc_frames s + (n + 4)) GI Et1 ltac:(lia))].
+    intros x. apply capG_weaken. lia. }
   destruct eo as [e|].
   - destruct G4 as [G4|G4]; [|discriminate]. inversion G4; subst e. cbn [map fold_left].
     change (to_sline (pline (w_end cap, [EDM], EDM))) with (format_frames (tc_frames (w_end cap)), [w_edm; w_edm]).
     assert (Fe : 0 <= tc_frames (w_end cap) < 10800000) by (apply frames_range; [lra|exact H100]).
-    destruct (get_time_frames (tc_frames (w_end cap)) 0 Fe ltac:(lia)) as (t3 & Gt3 & _).
+    destruct (get_time_frames (tc_frames (w_end cap)) 0 Fe ltac:(lia)) as (t3 & Gt3 & Et3).
     destruct (clear_line_run creator0 creator0 0 (closed st q t1) tk1 ds1 [] (Some (mkCr nodes1 SNone, t2)) t2
                 (format_frames (tc_frames s)) (Z.of_nat (length (flat_map roww (number_rows first lines))) + 8)
                 (format_frames (tc_frames (w_end cap))) t3 Gt3) as (ds2 & E2).
-    rewrite E2. eexists _, _, _, _, _, _, _, _. split; [reflexivity|]. apply QNone. apply closed_inv. exact I1.
-  - cbn [map fold_left]. eexists _, _, _, _, _, _, _, _. split; [reflexivity|exact I1].
+    rewrite E2. eexists _, _, _, _, _, _, _, _. split; [reflexivity|]. split; [apply QNone; apply closed_inv; exact I1|].
+    apply GNone. apply (closed_G (w_start cap) _ _ t3 (tc_frames (w_end cap) + 0) GI1 Et3).
+    pose proof (tc_frames_mono _ _ S2). lia.
+  - cbn [map fold_left]. eexists _, _, _, _, _, _, _, _. split; [reflexivity|split; [exact I1|exact GI1]].
 Qed.
 
-Definition cue_ok (c : wcap) : Prop :=
-  cap_dom c /\ has_word c /\ below_100h c /\ (0 <= w_start c - cap_words c * mpc)%Q /\ (0 <= w_start c)%Q /\ (w_start c <= w_end c)%Q.
-
-Lemma items_run : forall caps out, Forall2 good caps out -> Forall cue_ok caps ->
-  forall done st tk ds nodes q tm tc fr, qinv done st q ->
-  exists st' tk' ds' nodes' q' tm' tc' fr',
-    fold_left translate_line (map to_sline (map pline (flat_map item_ls out))) (ST0 st tk LNone ds nodes q tm tc fr)
-    = ST0 st' tk' LNone ds' nodes' q' tm' tc' fr' /\ qinv (done ++ caps) st' q'.
+(* the spacing hypothesis without `end <= next start`: a cue may end after the next one starts (the writer then drops its
+   clear line; the next load's EDM closes it) *)
+Fixpoint spaced_w (prev_start : Q) (caps : list wcap) : Prop :=
+  match caps with
+  | [] => True
+  | c :: t => (prev_start <= w_start c - cap_words c * mpc)%Q /\ (w_start c <= w_end c)%Q /\ spaced_w (w_start c) t
+  end.
+Lemma spaced_w_of : forall caps p, caps_spaced p caps -> spaced_w p caps.
+Proof. induction caps as [|c t IH]; intros p S; [exact I|]. destruct S as (S1 & S2 & _ & S4). cbn [spaced_w]. auto. Qed.
+Lemma spaced_w_each : forall caps prev, (0 <= prev)%Q -> spaced_w prev caps ->
+  Forall (fun c => (0 <= w_start c - cap_words c * mpc)%Q /\ (0 <= w_start c)%Q /\ (0 <= w_end c)%Q) caps.
 Proof.
-  intros caps out G. induction G as [|cap y caps out Gy G IH]; intros C done st tk ds nodes q tm tc fr I.
-  - cbn [flat_map map fold_left]. rewrite app_nil_r. eexists _, _, _, _, _, _, _, _. split; [reflexivity|exact I].
-  - inversion C as [|? ? (C1 & C2 & C3 & C4 & C5 & C6) Ct]; subst. cbn [flat_map]. rewrite !map_app, fold_left_app.
-    destruct (item_run cap y Gy C1 C2 C3 C4 C5 C6 done st tk ds nodes q tm tc fr I) as (st1 & tk1 & ds1 & n1 & q1 & tm1 & tc1 & fr1 & E1 & I1).
-    rewrite E1. destruct (IH Ct (done ++ [cap]) st1 tk1 ds1 n1 q1 tm1 tc1 fr1 I1) as (st2 & tk2 & ds2 & n2 & q2 & tm2 & tc2 & fr2 & E2 & I2).
-    rewrite E2. rewrite <- app_assoc in I2. eexists _, _, _, _, _, _, _, _. split; [reflexivity|exact I2].
+  induction caps as [|c t IH]; intros prev P S; [constructor|]. destruct S as (S1 & S2 & S4).
+  assert (CW : (0 <= cap_words c * mpc)%Q).
+  { apply Qmult_le_0_compat; [|pose proof mpc_pos; lra]. unfold cap_words.
+    destruct (text_to_words (w_text c)); [|lra]. change 0%Q with (inject_Z 0). rewrite <- Zle_Qle. lia. }
+  constructor; [split; [lra|split; lra]|]. apply (IH (w_start c)); [lra|exact S4].
 Qed.
 
-(* ---- the whole document ------------------------------------------------------------------------------------------------- *)
-Definition caps_ok (caps : list wcap) : Prop :=
-  Forall cap_dom caps /\ caps_spaced 0 caps /\ Forall has_word caps /\ Forall below_100h caps.
+Lemma items_run : forall caps out, Forall2 good caps out ->
+  forall p, (0 <= p)%Q -> spaced_w p caps -> Forall cap_dom caps -> Forall has_word caps -> Forall below_100h caps ->
+  forall done st tk ds nodes q tm tc frm, qinv done st q -> ginv p st q ->
+  exists st' tk' ds' nodes' q' tm' tc' fr' p',
+    fold_left translate_line (map to_sline (map pline (flat_map item_ls out))) (ST0 st tk LNone ds nodes q tm tc frm)
+    = ST0 st' tk' LNone ds' nodes' q' tm' tc' fr' /\ qinv (done ++ caps) st' q' /\ ginv p' st' q'.
+Proof.
+  intros caps out G. induction G as [|cap y caps out Gy G IH]; intros p P0 S D HW H100 done st tk ds nodes q tm tc frm I GI.
+  - cbn [flat_map map fold_left]. rewrite app_nil_r. eexists _, _, _, _, _, _, _, _, p. split; [reflexivity|split; assumption].
+  - pose proof (spaced_w_each (cap :: caps) p P0 S) as Each. inversion Each as [|? ? (E1 & E2 & E3) _]; subst.
+    destruct S as (S1 & S2 & S4).
+    inversion D as [|? ? Dc Dt]; subst. inversion HW as [|? ? Wc Wt]; subst. inversion H100 as [|? ? Hc Ht]; subst.
+    cbn [flat_map]. rewrite !map_app, fold_left_app.
+    destruct (item_run cap y p Gy Dc Wc Hc P0 S1 E2 S2 done st tk ds nodes q tm tc frm I GI)
+      as (st1 & tk1 & ds1 & n1 & q1 & tm1 & tc1 & fr1 & Ex & I1 & GI1).
+    rewrite Ex. destruct (IH (w_start cap) E2 S4 Dt Wt Ht (done ++ [cap]) st1 tk1 ds1 n1 q1 tm1 tc1 fr1 I1 GI1)
+      as (st2 & tk2 & ds2 & n2 & q2 & tm2 & tc2 & fr2 & p2 & E2' & I2 & GI2).
+    rewrite E2'. rewrite <- app_assoc in I2. eexists _, _, _, _, _, _, _, _, p2. split; [reflexivity|split; assumption].
+Qed.
 
-Lemma doc_lines : forall caps doc, write caps = Ok doc -> Forall cap_dom caps -> caps_spaced 0 caps ->
+(* the store at the end of the document: nothing for the two final checks of SCCReader.read to refuse *)
+Lemma final_G : forall p st q, ginv p st q ->
+  Forall (fun pc => is_flash pc = false /\ short (cap_text pc) = true) (st_caps (closed st q 0)).
+Proof.
+  intros p st q H. destruct H as [H|nodes a ka Ea K0 K2 H Sh P T W].
+  - cbn [closed]. eapply Forall_impl; [|exact H]. intros x X. split; [exact (capG_not_flash _ x X)|exact (proj1 X)].
+  - destruct (closed_parts st nodes a 0 P T W Sh) as (cn & lay & -> & S). cbn [st_caps]. apply Forall_app. split.
+    + eapply Forall_impl; [|exact (ulb_G ka st (mkPre a 0 cn lay) [] ka H Ea (Z.le_refl ka))].
+      intros x X. split; [exact (capG_not_flash _ x X)|exact (proj1 X)].
+    + constructor; [|constructor]. split; [|exact S]. unfold is_flash. cbn [pc_start pc_end].
+      assert (X : (0 - a <= 0)%Q).
+      { rewrite Ea. unfold fr. assert (0 <= inject_Z ka)%Q by (change 0%Q with (inject_Z 0); rewrite <- Zle_Qle; exact K0).
+        pose proof mpc_pos. nra. }
+      apply Qle_bool_iff in X. rewrite X. reflexivity.
+Qed.
+
+Definition caps_ok (caps : list wcap) : Prop :=
+  Forall cap_dom caps /\ spaced_w 0 caps /\ Forall has_word caps /\ Forall below_100h caps.
+
+Lemma caps_ok_of_composed : forall caps, Forall cap_dom caps -> caps_spaced 0 caps -> Forall has_word caps ->
+  Forall below_100h caps -> caps_ok caps.
+Proof. intros caps D S W H. split; [exact D|split; [apply spaced_w_of; exact S|split; assumption]]. Qed.
+
+Lemma doc_lines : forall caps doc, write caps = Ok doc -> Forall cap_dom caps -> spaced_w 0 caps ->
   exists out, Forall2 good caps out /\ parse_document doc = Some (map pline (flat_map item_ls out)).
 Proof.
   intros caps doc W D S. unfold write in W.
@@ -289,7 +471,7 @@ Proof.
   destruct (caps_wcodes caps codes R D) as (wcodes & Ec & F1). subst codes.
   destruct (pass2_items wcodes) as (out & Ep & F2).
   pose proof (good_compose caps wcodes out F1 F2) as G.
-  pose proof (caps_spaced_each caps 0 (Qle_refl 0) S) as Each.
+  pose proof (spaced_w_each caps 0 (Qle_refl 0) S) as Each.
   exists out. split; [exact G|].
   assert (LS : forall l, In l (flat_map item_ls out) ->
                (0 <= fst (fst l))%Q /\ forallb byte_ok (snd (fst l)) = true /\ byte_ok (snd l) = true).
@@ -310,34 +492,63 @@ Qed.
 Theorem reread_stash : forall caps, caps_ok caps ->
   exists stf, reread caps = RRRead (finish_read stf)
               /\ ok_reread (map to_cue caps) (map obs (st_caps stf)) = 0
-              /\ length (st_caps stf) = length caps.
+              /\ length (st_caps stf) = length caps
+              /\ Forall (fun pc => is_flash pc = false /\ short (cap_text pc) = true) (st_caps stf).
 Proof.
   intros caps (D & S & HW & H100).
-  pose proof (caps_spaced_each caps 0 (Qle_refl 0) S) as Each.
-  assert (C : Forall cue_ok caps).
-  { apply Forall_forall. intros c Hc. rewrite Forall_forall in D, HW, H100, Each. destruct (Each c Hc) as (E1 & E2 & E3).
-    assert (Se : (w_start c <= w_end c)%Q).
-    { clear - S Hc. revert S. generalize 0%Q. induction caps as [|c0 t IH]; intros p S; [destruct Hc|].
-      destruct S as (_ & S2 & _ & S4). destruct Hc as [<-|Hc]; [exact S2|]. exact (IH Hc _ S4). }
-    unfold cue_ok. auto 10. }
-  destruct (SccRoundTripFacts.reread_input_ok caps D S) as (doc & lines0 & W & _).
+  assert (Wk : exists doc, write caps = Ok doc).
+  { pose proof (spaced_w_each caps 0 (Qle_refl 0) S) as Each.
+    assert (Hc : forall c, In c caps -> (0 <= w_start c)%Q /\ (0 <= w_end c)%Q /\ (length (layout_rows (w_text c)) <= 15)%nat).
+    { rewrite Forall_forall in Each, D. intros c Hc. destruct (Each c Hc) as (_ & E2 & E3). destruct (D c Hc) as [_ Dr]. auto. }
+    destruct (SccRoundTripFacts.reread_reaches_reader caps Hc) as (lines0 & R0 & _). unfold reread in R0.
+    destruct (write caps) as [doc|e]; [exists doc; reflexivity|discriminate]. }
+  destruct Wk as (doc & W).
   destruct (doc_lines caps doc W D S) as (out & G & PD).
   unfold reread. rewrite W, PD.
-  destruct (items_run caps out G C [] stash0 tracker0 false [] None 0%Q (lit "00:00:00;00") 0 (QNone [] stash0 (Forall2_nil R)))
-    as (st' & tk' & ds' & n' & q' & tm' & tc' & fr' & E & I).
+  destruct (items_run caps out G 0%Q (Qle_refl 0) S D HW H100 [] stash0 tracker0 false [] None 0%Q (lit "00:00:00;00") 0
+              (QNone [] stash0 (Forall2_nil R)) (GNone 0 stash0 (Forall_nil _)))
+    as (st' & tk' & ds' & n' & q' & tm' & tc' & fr' & p' & E & I & GI).
   cbn [app] in I.
-  exists (closed st' q' 0). split; [|split].
+  exists (closed st' q' 0). split; [|split; [|split]].
   - unfold read, run_lines. change (rstate0 0) with (ST0 stash0 tracker0 LNone false [] None 0%Q (lit "00:00:00;00") 0).
     rewrite E. cbn [r_err ST]. unfold flush_implicit. cbn [r_active r_queue ST].
     destruct q' as [[c0 a]|]; reflexivity.
   - apply ok_reread_R. apply closed_inv. exact I.
   - pose proof (closed_inv caps st' q' 0 I) as X. clear - X. induction X; cbn [length]; congruence.
+  - exact (final_G p' st' q' GI).
+Qed.
+
+(* THE RE-READ CLAUSE, unconditional on the domain: the reader model returns captions for the writer model's document, one
+   per cue, with the cue's words and a start within three frames *)
+Theorem reread_store : forall caps, caps_ok caps -> caps <> [] ->
+  exists pcs, reread caps = RRRead (ROk pcs) /\ ok_reread (map to_cue caps) (map obs pcs) = 0 /\ length pcs = length caps.
+Proof.
+  intros caps H Ne. destruct (reread_stash caps H) as (stf & E & O & L & F).
+  assert (LC : length_check (map to_lcap (st_caps stf)) = None).
+  { apply short_texts_pass_length_check. apply Forall_forall. intros c Hc. apply in_map_iff in Hc. destruct Hc as (pc & <- & Hp).
+    rewrite Forall_forall in F. exact (proj2 (F pc Hp)). }
+  assert (FL : existsb is_flash (st_caps stf) = false).
+  { apply not_true_is_false. intros X. apply existsb_exists in X. destruct X as (pc & Hp & Hf). rewrite Forall_forall in F.
+    rewrite (proj1 (F pc Hp)) in Hf. discriminate. }
+  assert (FR : finish_read stf = ROk (fix_last (st_caps stf))).
+  { unfold finish_read. rewrite LC, FL. destruct (st_caps stf) as [|c t] eqn:Ec; [|reflexivity].
+    destruct caps; [congruence|discriminate]. }
+  exists (fix_last (st_caps stf)). split; [rewrite E, FR; reflexivity|]. split.
+  - rewrite obs_fix_last. exact O.
+  - rewrite <- L. rewrite <- (map_length obs), obs_fix_last, map_length. reflexivity.
+Qed.
+
+Theorem roundtrip_ok_all : forall caps, caps_ok caps -> caps <> [] -> roundtrip_ok caps = true.
+Proof.
+  intros caps H Ne. destruct (reread_store caps H Ne) as (pcs & E & O & _). unfold roundtrip_ok.
+  assert (Ob : reread_obs caps = Some (map obs pcs)) by (unfold reread_obs; rewrite E; reflexivity).
+  rewrite Ob. change (map (fun c => mkCue (w_text c) (w_start c) (w_end c)) caps) with (map to_cue caps). rewrite O. reflexivity.
 Qed.
 
 (* whenever the reader model returns captions for the writer's document, they satisfy the re-read clause *)
 Theorem reread_conditional : forall caps o, caps_ok caps -> reread_obs caps = Some o -> ok_reread (map to_cue caps) o = 0.
 Proof.
-  intros caps o H. destruct (reread_stash caps H) as (stf & E & O & _). unfold reread_obs. rewrite E.
+  intros caps o H. destruct (reread_stash caps H) as (stf & E & O & _ & _). unfold reread_obs. rewrite E.
   destruct (finish_read stf) as [pcs| |] eqn:F; try discriminate. intros X. inversion X; subst o.
   change (map (fun c => (pc_start c, strip (cap_text c))) pcs) with (map obs pcs). rewrite (finish_obs stf pcs F). exact O.
 Qed.
@@ -346,7 +557,7 @@ Qed.
 Theorem reread_refusals : forall caps, caps_ok caps -> caps <> [] ->
   (exists pcs, reread caps = RRRead (ROk pcs)) \/ (exists m, reread caps = RRRead (RLen m)) \/ reread caps = RRRead (RErr ETiming).
 Proof.
-  intros caps H Ne. destruct (reread_stash caps H) as (stf & E & _ & L). rewrite E. unfold finish_read.
+  intros caps H Ne. destruct (reread_stash caps H) as (stf & E & _ & L & _). rewrite E. unfold finish_read.
   destruct (length_check (map to_lcap (st_caps stf))) as [m|]; [right; left; exists m; reflexivity|].
   destruct (existsb is_flash (st_caps stf)); [right; right; reflexivity|].
   destruct (st_caps stf) as [|c t]; [destruct caps; [congruence|discriminate]|]. left. eexists. reflexivity.
